@@ -135,6 +135,9 @@ pub enum E {
     /// call by name `name(args)`: a function bound under that name wins over a macro
     /// (has/coalesce) and a type constructor (C12)
     NCall(String, Vec<E>),
+    /// built-in called as a method, `recv.name(args)`: only its behaviour on a receiver that
+    /// fails is modelled (the call fails the same way; what it computes is C15's ground)
+    MCall(Box<E>, String, Vec<E>),
 }
 
 #[derive(Clone, Debug, PartialEq, Eq, Serialize, Deserialize)]
@@ -240,7 +243,7 @@ impl E {
                 "coalesce({})",
                 xs.iter().map(|a| a.render(flat)).collect::<Vec<_>>().join(", ")
             ),
-            E::Member(a, f) => format!("{}.{}", a.atom(flat), f),
+            E::Member(a, f) => format!("{}.{}", a.receiver(flat), f),
             E::Index(a, i) => format!("{}[{}]", a.atom(flat), i.render(flat)),
             E::List(xs) => format!("[{}]", xs.iter().map(|a| a.render(flat)).collect::<Vec<_>>().join(", ")),
             E::MapLit(kv) => format!(
@@ -258,14 +261,29 @@ impl E {
                 n,
                 args.iter().map(|a| a.render(flat)).collect::<Vec<_>>().join(", ")
             ),
+            E::MCall(recv, n, args) => format!(
+                "{}.{}({})",
+                recv.receiver(flat),
+                n,
+                args.iter().map(|a| a.render(flat)).collect::<Vec<_>>().join(", ")
+            ),
             E::FStr(segs) => {
                 let mut s = String::from("f\"");
                 for seg in segs {
                     match seg {
                         FSeg::Lit(l) => s.push_str(l),
                         FSeg::Expr(e) => {
+                            // `{{` and `}}` spell literal braces: an expression that begins or
+                            // ends with a brace (a map literal) is parenthesised
+                            let t = e.render(flat);
                             s.push('{');
-                            s.push_str(&e.render(flat));
+                            if t.starts_with('{') || t.ends_with('}') {
+                                s.push('(');
+                                s.push_str(&t);
+                                s.push(')');
+                            } else {
+                                s.push_str(&t);
+                            }
                             s.push('}');
                         }
                     }
@@ -276,10 +294,20 @@ impl E {
         }
     }
 
+    /// receiver of `.member`: a number is parenthesised (`9.size` does not lex as a member)
+    fn receiver(&self, flat: bool) -> String {
+        let t = self.atom(flat);
+        if t.ends_with(|c: char| c.is_ascii_digit()) && matches!(self, E::Lit(_)) {
+            format!("({})", t)
+        } else {
+            t
+        }
+    }
+
     fn atom(&self, flat: bool) -> String {
         match self {
             E::Lit(_) | E::FailLit(_) | E::Var(_) | E::Call(..) | E::Prog(_) | E::BoolOf(_) | E::Has(_)
-            | E::Coalesce(_) | E::List(_) | E::MapLit(_) | E::FStr(_) | E::Member(..) | E::Index(..) | E::Now(_) | E::NCall(..)
+            | E::Coalesce(_) | E::List(_) | E::MapLit(_) | E::FStr(_) | E::Member(..) | E::Index(..) | E::Now(_) | E::NCall(..) | E::MCall(..)
             | E::Macro(..) | E::Reduce(..) => self.render(flat),
             _ => format!("({})", self.render(flat)),
         }
@@ -332,6 +360,7 @@ impl E {
             E::FStr(s) => format!("fstr/{}", s.len()),
             E::Now(_) => "now".into(),
             E::NCall(n, a) => format!("ncall:{}/{}", n, a.len()),
+            E::MCall(r, n, a) => format!("{}.{}/{}", r.skeleton(), n, a.len()),
         }
     }
 
@@ -340,6 +369,11 @@ impl E {
         match self {
             E::Lit(_) | E::FailLit(_) | E::Var(_) | E::Prog(_) | E::Now(_) => vec![],
             E::Call(_, a) | E::NCall(_, a) => a.iter().collect(),
+            E::MCall(r, _, a) => {
+                let mut v: Vec<&E> = vec![r];
+                v.extend(a.iter());
+                v
+            }
             E::Not(a) | E::BoolOf(a) | E::Has(a) => vec![a],
             E::Or(a, b) | E::And(a, b) | E::Add(a, b) | E::Index(a, b) | E::Cmp(_, a, b) => vec![a, b],
             E::Tern(c, x, y) => vec![c, x, y],
